@@ -39,8 +39,9 @@ CLAIMS = {
            "resume_bisimilar / resume_bisimilar_run / resume_bisimilar_of_targets (a machine restored at ANY quiescent "
            "cut of ANY run continues like the original on every later event list; hypotheses left: quiescence and "
            "SnapOK, both evaluated by driver_snap at every explored cut) (30); cut-point and corrupt-snapshot checks "
-           "on the code; finding F40 fixed in the library (prefix_resume_history_order_counterexample is the pre-fix "
-           "witness), F43 (from_snapshot shape validation) open",
+           "on the code, exact accept/reject/error-class tie on ~125 corrupt texts per case; restore_rejects_shape_* for all "
+           "seven keys incl. actors/system, restore_shape_first, restore_wellshaped_outcome (39); findings F40 and F43 "
+           "fixed in the library (prefix_resume_history_order_counterexample is the pre-fix witness of F40)",
     "C14": "theorems over the lifecycle model (start/stop/send/send_events/restore call sequences, both engines): "
            "status_edges(_run) (only the documented status edges), stop_idempotent, stop_from_any_status, "
            "start_after_stop_raises, start_idempotent_running, start_noop_when_finished, start_resumes_restored, "
